@@ -172,7 +172,7 @@ func (dr *DecodingReader) Vector(item func(i uint64) Deserializable, fixedElemSi
 			if prev > off {
 				return fmt.Errorf("offset %d is too low, previous was %d", off, prev)
 			}
-			item := item(uint64(0))
+			item := item(uint64(i))
 			next := scope
 			if len(offsets) > i+1 {
 				next = offsets[i+1]
